@@ -4,9 +4,10 @@ import random
 from common import *
 import runner
 from props.parts import _tracksv1_gen as G
+from props.parts import _v1bindings as B
 
 NS = "EngineModel.Properties.C06V1."
-LEAN_MODULES = ["Properties.C06V1", "Properties.C06V1Accept"]
+LEAN_MODULES = ["Properties.C06V1", "Properties.C06V1Accept", B.LEAN_MODULE]
 THEOREMS = [NS + t for t in [
     "v1_C06_setter_spec", "v1_C06_get_set", "v1_C06_reject", "v1_C06_never_ub", "v1_C06_frame", "v1_C06_frame_derived",
     "v1_C06_getter_snapshot", "v1_C06_slot_getters_safe", "v1_C06_inv_write", "v1_C06_inv_set", "v1_C06_inv_db",
@@ -18,8 +19,10 @@ THEOREMS = [NS + t for t in [
     "v1_C06_accepts_row", "v1_C06_accepts", "v1_C06_refused_throws", "v1_C06_accepts_spec", "v1_C06_clean_db",
     "v1_C06_history_no_ub", "v1_C06_history_decided", "v1_C06_abs_is_snapshot", "v1_C06_value_last_set",
     "v1_C06_value_last_set_spec", "v1_C06_setter_stricter_counterexample", "v1_C06_normField_normFields",
-    "v1_C06_accepted_iff_fields", "v1_C06_waveform_entry_points_counterexample"]]
+    "v1_C06_accepted_iff_fields", "v1_C06_waveform_entry_points_counterexample"]] + B.THEOREMS_C06   # regenerated bindings
+TRANSLATORS = B.TRANSLATORS
 ASSUMPTIONS = [
+    B.ASSUMPTION,
     "1.x: setters are modelled on the rows of one track (every statement they issue has WHERE id = ?); the only "
     "cross-track coupling is UNIQUE(path) from 1.11.1 on, which is part of the database-level step",
     "1.x: every multi-statement setter (set_bpm, set_duration, set_key, set_last_played_at, set_relative_path, "
@@ -56,7 +59,7 @@ MANIFEST_TEXT = (
     "histories) with is_valid, all getters and snapshots observed after every step; oracles on the real library's own "
     "answers: lens laws, value-last-set over the whole history, a thrown call changes nothing, and the acceptance predicate; "
     "FloatLaw sampled on the hardware doubles.")
-TRUSTED_EXTRA = []
+TRUSTED_EXTRA = [B.TRUSTED]
 
 GETTERS = ["album", "artist", "average_loudness", "beatgrid", "bitrate", "bpm", "comment", "composer", "duration",
            "genre", "hot_cues", "key", "last_played_at", "loops", "main_cue", "publisher", "rating", "relative_path",
